@@ -132,6 +132,7 @@ def json_schema(
     patternProperties: Mapping[Pattern, JsonSchema] = {},
     prefixItems: Sequence[JsonSchema] = [],
     properties: Mapping[str, JsonSchema] = {},
+    propertyNames: Optional[JsonSchema] = None,
     readOnly: bool = False,
     required: Sequence[str] = [],
     title: Optional[str] = None,
